@@ -57,6 +57,10 @@ type c09Query struct {
 	Depth  int    `json:"depth"`
 	Lim    int    `json:"lim"` // stop after lim pairs, 0 = to the end
 	Cut    bool   `json:"cut"` // informative: the answer's keys are trimmed (api >= 2)
+	// api >= 3: what the consumer does with the SAME dao between two delivered pairs (bit set):
+	//   1 GetStorageItem(same id, key shorter than the scan prefix)   2 GetStorageItem(other id, longer key)
+	//   4 nested Seek(other id)   8 PutStorageItem(other id, ..)   16 DeleteStorageItem(other id, ..)
+	Re int `json:"re,omitempty"`
 }
 
 type c09Input struct {
@@ -77,7 +81,8 @@ type c09Stack struct {
 	ldbPath string
 	fwd     *c09Fwd
 	base   storage.Store
-	layers []*storage.MemCachedStore // bottom first
+	layers []*storage.MemCachedStore // bottom first; layers[i] == daos[i].Store
+	daos   []*dao.Simple             // the same layers as dao.Simple objects (NewSimple / GetWrapped / GetPrivate)
 	privs  []bool
 	// shadow: what was written where (Go-side oracle, used for non-triviality and for labelling deviations)
 	sh     []map[string][]byte // nil value = tombstone
@@ -116,7 +121,8 @@ func c09NewStack(backend, dir string, seq int) (*c09Stack, error) {
 		return nil, err
 	}
 	s := &c09Stack{base: base, shBase: map[string][]byte{}, ldb: ldb, ldbPath: ldbPath, fwd: fwd}
-	s.layers = []*storage.MemCachedStore{storage.NewMemCachedStore(base)}
+	s.daos = []*dao.Simple{dao.NewSimple(base, false)} // = NewMemCachedStore(base) + the dao's own state
+	s.layers = []*storage.MemCachedStore{s.daos[0].Store}
 	s.privs = []bool{false}
 	s.sh = []map[string][]byte{{}}
 	return s, nil
@@ -206,7 +212,7 @@ func (s *c09Stack) shadowWriteBelow(idx int) {
 
 func (s *c09Stack) pop() {
 	n := len(s.layers) - 1
-	s.layers, s.privs, s.sh = s.layers[:n], s.privs[:n], s.sh[:n]
+	s.layers, s.privs, s.sh, s.daos = s.layers[:n], s.privs[:n], s.sh[:n], s.daos[:n]
 }
 
 // apply runs one op on the real stack and on the shadow; every op is total (an op that does not apply is a no-op),
@@ -226,11 +232,14 @@ func (s *c09Stack) apply(o c09Op) error {
 		s.top().Delete(k)
 		s.sh[n-1][string(k)] = nil
 	case "wrap":
+		var nd *dao.Simple
 		if o.Priv {
-			s.layers = append(s.layers, storage.NewPrivateMemCachedStore(s.top()))
+			nd = s.daos[n-1].GetPrivate() // NewPrivateMemCachedStore(top); a private dao builds its keys in one reusable buffer
 		} else {
-			s.layers = append(s.layers, storage.NewMemCachedStore(s.top()))
+			nd = s.daos[n-1].GetWrapped() // NewMemCachedStore(top)
 		}
+		s.daos = append(s.daos, nd)
+		s.layers = append(s.layers, nd.Store)
 		s.privs = append(s.privs, o.Priv)
 		s.sh = append(s.sh, map[string][]byte{})
 	case "persist":
@@ -426,7 +435,15 @@ func c09Full(q c09Query) (prefix []byte, trimLen int, reprefix []byte) {
 	return p, 0, nil
 }
 
+const c09OtherID = 0x03030303 // the contract the re-entrant calls touch (never the scanned one)
+
 func c09Seek(s *c09Stack, q c09Query) (res []c09KV, panicked string) {
+	res, _, panicked = c09SeekRe(s, q)
+	return
+}
+
+// c09SeekRe also returns the writes the consumer made through the dao while it was consuming the scan (store-level ops)
+func c09SeekRe(s *c09Stack, q c09Query) (res []c09KV, side []c09Op, panicked string) {
 	top := s.top()
 	rng := storage.SeekRange{Prefix: unhx(q.Prefix), Start: unhx(q.Start), Backwards: q.Bw, SearchDepth: q.Depth}
 	if rng.Prefix == nil {
@@ -447,7 +464,35 @@ func c09Seek(s *c09Stack, q c09Query) (res []c09KV, panicked string) {
 		for range ch { //nolint:revive // drain, as ic.RegisterCancelFunc does
 		}
 	}
-	d := &dao.Simple{Version: dao.Version{StoragePrefix: storage.STStorage}, Store: top}
+	d := s.daos[len(s.daos)-1]
+	// re-entrancy: the consumer uses the same dao between two delivered pairs ("f() can use dao too")
+	nre := 0
+	reenter := func() {
+		if q.Re == 0 || q.API < 3 {
+			return
+		}
+		nre++
+		up := unhx(q.Prefix)
+		if q.Re&1 != 0 {
+			d.GetStorageItem(int32(q.ID), up[:len(up)/2])
+		}
+		if q.Re&2 != 0 {
+			d.GetStorageItem(int32(c09OtherID), append(append([]byte{}, up...), 0x01, 0x70, 0xff, byte(nre)))
+		}
+		if q.Re&4 != 0 {
+			d.Seek(int32(c09OtherID), storage.SeekRange{Prefix: []byte{0x01}, Backwards: nre%2 == 0}, func(_, _ []byte) bool { return true })
+		}
+		if q.Re&8 != 0 {
+			k, v := []byte{0x01, byte(nre % 3)}, []byte{0xe0, byte(nre)}
+			d.PutStorageItem(int32(c09OtherID), k, v)
+			side = append(side, c09Op{T: "put", K: hx(append([]byte{0x70, 0x03, 0x03, 0x03, 0x03}, k...)), V: hx(v)})
+		}
+		if q.Re&16 != 0 {
+			k := []byte{0x01, byte((nre + 1) % 3)}
+			d.DeleteStorageItem(int32(c09OtherID), k)
+			side = append(side, c09Op{T: "del", K: hx(append([]byte{0x70, 0x03, 0x03, 0x03, 0x03}, k...))})
+		}
+	}
 	panicked = catch(func() {
 		switch q.API {
 		case 0:
@@ -456,10 +501,24 @@ func c09Seek(s *c09Stack, q c09Query) (res []c09KV, panicked string) {
 			ctx, cancel := context.WithCancel(context.Background())
 			fromChan(top.SeekAsync(ctx, rng, q.API == 2), cancel)
 		case 3:
-			d.Seek(int32(q.ID), rng, collect)
+			d.Seek(int32(q.ID), rng, func(k, v []byte) bool {
+				cont := collect(k, v)
+				reenter()
+				return cont
+			})
 		case 4:
 			ctx, cancel := context.WithCancel(context.Background())
-			fromChan(d.SeekAsync(ctx, int32(q.ID), rng), cancel)
+			ch := d.SeekAsync(ctx, int32(q.ID), rng)
+			for kv := range ch {
+				res = append(res, c09KV{bytes.Clone(kv.Key), bytes.Clone(kv.Value)})
+				reenter()
+				if q.Lim != 0 && len(res) >= q.Lim {
+					break
+				}
+			}
+			cancel()
+			for range ch { //nolint:revive // drain
+			}
 		case 5, 6:
 			opts := int64(istorage.FindDefault)
 			if q.API == 6 {
@@ -476,6 +535,7 @@ func c09Seek(s *c09Stack, q c09Query) (res []c09KV, panicked string) {
 				k, _ := st[0].TryBytes()
 				v, _ := st[1].TryBytes()
 				res = append(res, c09KV{bytes.Clone(k), bytes.Clone(v)})
+				reenter() // the contract does other storage calls between two Next calls
 				if q.Lim != 0 && len(res) >= q.Lim {
 					break
 				}
@@ -487,7 +547,7 @@ func c09Seek(s *c09Stack, q c09Query) (res []c09KV, panicked string) {
 			panic("bad api")
 		}
 	})
-	return res, panicked
+	return res, side, panicked
 }
 
 // diag labels the shape of a deviation from the ordered-map oracle (nil when there is none):
